@@ -474,6 +474,12 @@ pub fn run_history_prop(p: HistoryProp, tier: Tier) -> i32 {
     let nontrivial = p.nontrivial;
     for t in &p.tiers {
         let mut cases = tier.pick(t.quick, t.thorough);
+        // the quick tier's second pass (plain release profile, set by ./check) runs a fraction of every tier
+        if let Some(scale) = std::env::var("VERIF_SCALE").ok().and_then(|s| s.parse::<f64>().ok()) {
+            if cases > 0 {
+                cases = ((cases as f64 * scale) as u64).max(1);
+            }
+        }
         // developer knobs (not used by the registered commands): run one engine only / another case count
         if let Ok(f) = std::env::var("VERIF_TIER_FILTER") {
             if f != t.label {
@@ -631,7 +637,15 @@ pub fn script_props(id: &str) -> Option<ScriptProp> {
                    the active index (add, append, del, clear, build with any options, metric change), abort restores the txn-start \
                    dump. Non-trivial = a passive index that is built with trees and adjacent (+-1) to the active index while the \
                    active step is clear / build / metric change",
-            cfg: ScriptCfg { isolation: true, staleness: true, ..Default::default() },
+            // "never affect each other" cuts both ways: the passive indexes keep their bytes, and what the active index
+            // stores and builds is a function of its own history only, whatever state its neighbours are in
+            cfg: ScriptCfg {
+                isolation: true,
+                staleness: true,
+                store: true,
+                built: Some(RunCfg { structure: true, search_exact: true, ..Default::default() }),
+                ..Default::default()
+            },
             tiers: vec![ScriptTier {
                 label: "C07-script",
                 gen: ScriptGen {
